@@ -205,6 +205,12 @@ def run_program(prog: list[dict]) -> list[dict] | None:
                 # the program "with the failing statement removed" (C13)
                 if snap is not None:
                     for h, a in snap.items():
+                        if npx.H[h].shape != a.shape:
+                            import warnings
+
+                            with warnings.catch_warnings():
+                                warnings.simplefilter("ignore")
+                                npx.H[h].shape = a.shape
                         if npx.H[h].flags.writeable:
                             npx.H[h][...] = a
                 elif s["k"] in ("op", "leaf") and s.get("h") in npx.H:
